@@ -18,6 +18,119 @@ class StepCap(Exception):
     pass
 
 
+def code_objects(*owners):
+    """All code objects of the functions, properties and context managers defined by the given classes / modules /
+    functions (nested functions and generator expressions included)."""
+    import types
+    out, seen = [], set()
+
+    def add(code):
+        if code in seen:
+            return
+        seen.add(code)
+        out.append(code)
+        for const in code.co_consts:
+            if isinstance(const, types.CodeType):
+                add(const)
+
+    def visit(obj):
+        if isinstance(obj, property):
+            for f in (obj.fget, obj.fset, obj.fdel):
+                if f is not None:
+                    visit(f)
+        elif isinstance(obj, (staticmethod, classmethod)):
+            visit(obj.__func__)
+        elif isinstance(obj, types.FunctionType):
+            add(obj.__code__)
+            inner = getattr(obj, '__wrapped__', None)
+            if inner is not None:
+                visit(inner)
+    for owner in owners:
+        if isinstance(owner, type) or isinstance(owner, types.ModuleType):
+            for obj in vars(owner).values():
+                if isinstance(owner, types.ModuleType) and getattr(obj, '__module__', None) != owner.__name__:
+                    continue
+                visit(obj)
+        else:
+            visit(owner)
+    return out
+
+
+_STORE_LINES = {}
+
+
+def store_lines(codes):
+    """{(code, line)} of the statements that store or delete an attribute (STORE_ATTR / DELETE_ATTR / a call of
+    setattr or delattr), plus the statement that follows each of them in the same function."""
+    import dis
+    memo = tuple(codes)
+    if memo in _STORE_LINES:
+        return _STORE_LINES[memo]
+    out = _STORE_LINES.setdefault(memo, set())
+    for code in codes:
+        lines = sorted({ln for _, _, ln in code.co_lines() if ln is not None})
+        hits = set()
+        cur = None
+        for ins in dis.get_instructions(code):
+            if ins.starts_line is not None:
+                cur = ins.starts_line
+            if ins.opname in ('STORE_ATTR', 'DELETE_ATTR') or (
+                    ins.opname in ('LOAD_GLOBAL', 'LOAD_NAME') and ins.argval in ('setattr', 'delattr')):
+                if cur is not None:
+                    hits.add(cur)
+        for ln in hits:
+            out.add((code, ln))
+            later = [x for x in lines if x > ln]
+            if later:
+                out.add((code, later[0]))
+    return out
+
+
+class LineGates:
+    """Statement-level scheduling points (sys.monitoring LINE events, Python >= 3.12): while active, every statement of
+    the chosen library functions that a client thread of the scheduler executes is a gate, so that two threads sharing
+    one library object can be interleaved between any two statements - not only around SQL statements and file
+    operations.  Threads that are not clients of the scheduler are not affected."""
+    TOOL = 3
+
+    def __init__(self, sched, codes, only_stores=False):
+        self.sched = sched
+        self.codes = list(codes)
+        self.events = 0
+        # only_stores: gates only at the statements that store (or delete) an attribute - where a thread publishes
+        # state on an object other threads may share - and at the statement executed right after each of them
+        self.only = store_lines(self.codes) if only_stores else None
+
+    def _line(self, code, line):
+        if self.only is not None and (code, line) not in self.only:
+            import sys
+            return sys.monitoring.DISABLE
+        if self.sched._me() is None or self.sched.aborted:
+            return None
+        self.events += 1
+        self.sched.gate('line')
+        return None
+
+    def __enter__(self):
+        import sys
+        mon = sys.monitoring
+        mon.use_tool_id(self.TOOL, 'vf-line-gates')
+        mon.restart_events()
+        mon.register_callback(self.TOOL, mon.events.LINE, self._line)
+        for code in self.codes:
+            mon.set_local_events(self.TOOL, code, mon.events.LINE)
+        return self
+
+    def __exit__(self, *exc):
+        import sys
+        mon = sys.monitoring
+        for code in self.codes:
+            mon.set_local_events(self.TOOL, code, 0)
+        mon.register_callback(self.TOOL, mon.events.LINE, None)
+        mon.free_tool_id(self.TOOL)
+        return False
+
+
 class Client:
     def __init__(self, cid, fn):
         self.cid = cid
@@ -36,7 +149,7 @@ class Client:
 
 class Sched:
     def __init__(self, rng, clock, strategy='random', max_steps=6000, preempt_points=None, victims=(),
-                 chase_label='pre:fopen'):
+                 chase_label='pre:fopen', line_codes=None, only_stores=False):
         self.rng = rng
         self.clock = clock
         self.strategy = strategy
@@ -59,6 +172,16 @@ class Sched:
         self.chase_label = chase_label
         self._chase = None
         self.chases = 0
+        self.line_codes = line_codes      # code objects whose statements are scheduling points (LineGates)
+        self.line_events = 0
+        self.only_stores = only_stores
+        # strategy 'plan' (bounded-exhaustive exploration): the client that runs keeps running; when the n-th statement
+        # gate of the whole run is reached and n is in `plan`, control goes to client plan[n] (if it can run).  `start`
+        # is the client that runs first.  A caller enumerates plans with 0, 1, 2 ... change points.
+        self.plan = {}
+        self.start = 0
+        self.line_count = 0
+        self._switch_to = None
         self.fault_hook = None     # callable(client, gate label) -> exception to raise in that client, or None
         self.harness_errors = []
         self.faults_injected = 0
@@ -80,6 +203,10 @@ class Sched:
                 if o.status == 'blocked':
                     o.status = 'ready'
         c.label = label
+        if label == 'line':
+            self.line_count += 1
+            if self.line_count in self.plan:
+                self._switch_to = self.plan[self.line_count]
         self._yield(c)
         hook = self.fault_hook
         if hook is not None:
@@ -138,6 +265,9 @@ class Sched:
         old_hook = self.clock.sleep_hook
         probe.set_controller(self)
         self.clock.sleep_hook = self.on_sleep
+        lines = LineGates(self, self.line_codes, self.only_stores) if self.line_codes else None
+        if lines is not None:
+            lines.__enter__()
         for c in self.clients:
             c.thread = threading.Thread(target=self._body, args=(c,), daemon=True)
             c.thread.start()
@@ -162,6 +292,9 @@ class Sched:
                         c.go.release()
             for c in self.clients:
                 c.thread.join(timeout=20)
+            if lines is not None:
+                lines.__exit__(None, None, None)
+                self.line_events = lines.events
             probe.set_controller(old_ctrl)
             self.clock.sleep_hook = old_hook
         if self.harness_errors:
@@ -218,6 +351,17 @@ class Sched:
                         break
         if nxt is not None:
             pass
+        elif self.strategy == 'plan':
+            want, self._switch_to = self._switch_to, None
+            if cur is None:
+                first = [c for c in run if c.cid == self.start]
+                nxt = first[0] if first else run[0]
+            elif want is not None and any(c.cid == want for c in run):
+                nxt = [c for c in run if c.cid == want][0]
+            elif cur_ok:
+                nxt = cur
+            else:
+                nxt = min(run, key=lambda c: c.cid)
         elif self.strategy == 'ops':
             # whole operations in random order: a client keeps running until it is about to start its next call
             # (or cannot go on); every pair of calls is then ordered in real time
